@@ -707,15 +707,29 @@ func (fr *frame) checkGuards(st *PState, qname string, sig *types.Signature, arg
 				}
 				return outs[i].h.Index < outs[j].h.Index
 			})
-			for _, o := range outs {
+			for k, o := range outs {
+				pfx := ""
+				if k == 1 {
+					pfx = "outer_"
+				} else if k > 1 {
+					pfx = fmt.Sprintf("outer%d_", k)
+				}
+				n := 0
 				for _, ins := range o.h.Instrs {
 					phi, ok := ins.(*ssa.Phi)
 					if !ok {
 						break
 					}
-					if v, ok := st.env[phi]; ok && phi.Comment != "" {
-						if _, taken := vars[phi.Comment]; !taken {
-							vars[phi.Comment] = v
+					n++
+					if v, ok := st.env[phi]; ok {
+						if phi.Comment != "" {
+							if _, taken := vars[pfx+phi.Comment]; !taken {
+								vars[pfx+phi.Comment] = v
+							}
+						}
+						// by position, whatever the variable is called
+						if _, taken := vars[fmt.Sprintf("%sphi%d", pfx, n)]; !taken {
+							vars[fmt.Sprintf("%sphi%d", pfx, n)] = v
 						}
 					}
 				}
